@@ -577,6 +577,23 @@ def cases(rng, tier):
         cli_inputs.append((f, rng.choice([0, 0, 1, 3])))
     for f, z in cli_inputs:
         out += cli_cases(f, 'trailing-zeros' if z else 'plain', zeros=z)
+    # the printed form of every factor (factor_str) must denote the polynomial of factor_vec; several commands in one configuration
+    # must each get the answer they get alone (the parsed input is shared between the commands)
+    def o_str(ia):
+        if ia.kind != 'ok' or not isinstance(ia.val, list): return 'cli factorization failed: %s' % ia.raw[:120]
+        for st, vec, e in ia.val:
+            txt = bytes(st).decode('utf-8', 'replace')
+            try: got = lib.parse_poly_str(txt)
+            except ValueError as ex: return 'factor_str %r: %s' % (txt, ex)
+            if got != vec: return 'factor_str %r denotes %s, factor_vec is %s' % (txt, got, vec)
+        return None
+    str_inputs = [[1, 0, 0, 1], [1, 1, 0, 0, 0, 1], [-1, 0, -1, 0, 1], [2, -1, -1, 1], [1, -1, 0, 0, 2], [-6, 0, -13, 0, -1, 0, 2]] + [f for f, z in cli_inputs[4:10] if f]
+    for f in str_inputs:
+        out.append(Case('cli_factor_poly_str', line('cli_factor_poly_str', f), model=lib.IMPL_ONLY, oracle=o_str, always_oracle=True, tag='cli-factor-str'))
+    for f in ([4, 2, -8, -6], [1, 0, 0, 1], [-3, 2, 1], [1, 0, -10, 0, 1]):
+        for cmds in (['fz', 'fz'], ['fz', 'disc', 'fz'], ['disc', 'fz']):
+            out.append(Case('cli_seq', line('cli_seq', Id('poly'), f, [], [Id(c) for c in cmds]), model=lib.IMPL_ONLY, oracle=lib.o_cli_seq(len(cmds)),
+                            always_oracle=True, tag='cli-several-commands'))
     # a slice of the cases again on the release build of the implementation (wrapping arithmetic, debug assertions off)
     out += lib.release_slice(out, rng, 0.08, mode_ops=('polyz_factorize',), plain_ops=())
     return out
